@@ -66,7 +66,8 @@ class CondensedReactionGraph(MolGraph):
         s_colors = {a: int(c) for a,c in zip(self.atoms, s_color_array)}
 
         return any(
-                vf2pp_all_isomorphisms(
+                self._preserves_bond_changes(other, mapping)
+                for mapping in vf2pp_all_isomorphisms(
                     self,
                     other,
                     atom_labels=(s_colors, o_colors),
@@ -75,6 +76,17 @@ class CondensedReactionGraph(MolGraph):
                     subgraph=False,
                 )
             )
+
+    def _preserves_bond_changes(
+        self, other: CondensedReactionGraph, mapping: dict[AtomId, AtomId]
+    ) -> bool:
+        """True if every bond is mapped onto a bond with the same change
+        (unchanged, formed, broken or fleeting)."""
+        for bond, attrs in self._bond_attrs.items():
+            o_attrs = other._bond_attrs[Bond(mapping[a] for a in bond)]
+            if attrs.get("reaction") != o_attrs.get("reaction"):
+                return False
+        return True
 
     def add_bond(self, atom1: int, atom2: int, **attr: Any):
         """
